@@ -129,6 +129,39 @@ def gen_C15(rng, tier):
             out.append(('%s sb:%s' % (op, b.hex()), op + '/len%d' % n))
         out.append(('decompresssig ' + hexb(b.hex().encode()), 'decompresssig/len%d' % n))
         out.append(('pkunmarshal ' + hexb(b.hex().encode()), 'pkunmarshal/len%d' % n))
+    # text unmarshallers of the COMPRESSED forms: digit counts around 64 / 128, prefixes, case, one
+    # bad character first / last, double prefix
+    good = pts[len(pts) // 2]
+    gpk = compress(good).hex().encode()
+    gsig = (compress(good) + (L - 1).to_bytes(32, 'little')).hex().encode()
+    for base, nd, ops in ((gpk, 64, ('pkcunmarshal', 'pkunmarshal')), (gsig, 128, ('sigcunmarshal', 'decompresssig'))):
+        texts = [base[:k] for k in (0, 1, nd - 2, nd - 1)] + [base + b'0', base + b'00', base + base, base.upper(), b'0x' + base, b'0X' + base,
+                 b'0x0x' + base[4:], b'0x0x' + base, b'0x' + base[:-1], b'0x' + base + b'0',
+                 b'g' + base[1:], base[:-1] + b'g', base[:nd // 2] + b' ' + base[nd // 2 + 1:], b'0x' + base[:-1] + b'_', b' ' + base, base + b'\n']
+        for t in texts:
+            for op in ops:
+                out.append(('%s %s' % (op, hexb(t)), op + '/text-forms'))
+    for n in (0, 1, 62, 63, 65, 66, 128):
+        out.append(('pkcunmarshal ' + hexb(bytes(rng.choice(HEXCH) for _ in range(n))), 'pkcunmarshal/len%d' % n))
+    for n in (0, 126, 127, 129, 130, 256):
+        out.append(('sigcunmarshal ' + hexb(bytes(rng.choice(HEXCH) for _ in range(n))), 'sigcunmarshal/len%d' % n))
+    for txt in (b'0x0x' + bytes(rng.choice(HEXCH) for _ in range(60)), b'0x0x', b'0x', b'0X', b'x0', b'0x0X12'):
+        out.append(('hexdecinto 32 ' + hexb(txt), 'hexdecinto/double-prefix'))
+        out.append(('hexdec ' + hexb(txt), 'hexdec/double-prefix'))
+    # structured invalid point encodings through every wrapper (not only Point.Decompress)
+    ysp, yres, ynon = y_classes(rng, 'quick')
+    for y in [Q, Q + 1, 2**255 - 1, 1 | 2**255, (Q - 1) | 2**255, 0, Q - 1] + ynon[:3] + [v | 2**255 for v in yres[:2]]:
+        b = (y % 2**256).to_bytes(32, 'little')
+        out += [('pkdecomp ' + hexb(b), 'pkdecomp/y-class'), ('pkscan sb:' + b.hex(), 'pkscan/y-class'),
+                ('pkunmarshal ' + hexb(b.hex().encode()), 'pkunmarshal/y-class'),
+                ('sigscan sb:' + (b + bytes(32)).hex(), 'sigscan/y-class'), ('decompresssig ' + hexb((b + bytes(32)).hex().encode()), 'decompresssig/y-class'),
+                ('sigdecompc ' + hexb(b + bytes(32)), 'sigdecompc/y-class')]
+    # Compress / Value of signatures whose S does not fit 32 bytes or is negative (documented truncation)
+    for S in (2**256, 2**256 + 5, 2**300 + 1, -1, -L):
+        out.append(('sigcomp %d %d %d' % (B8[0], B8[1], S), 'sigcomp/S-out-of-range'))
+        out.append(('sigvalue %d %d %d' % (B8[0], B8[1], S), 'sigvalue/S-out-of-range'))
+    for s_ in (b'12', b'-1', b'', b'0x1', b'+5', b'1\xe3', b'007', b' 1', b'1 ', b'123456789012345678901234567890123456789012345678901234567890123456789012345678901234567890'):
+        out.append(('newint ' + hexb(s_), 'NewIntFromString'))
     for op in ('sigscan', 'sigcscan', 'pkscan', 'pkcscan'):
         for src in ('sn', 'si:5', 'so:float', 'so:bool', 'so:time', 'so:arr64', 'so:arr32', 'so:ptr', 'so:uint', 'ss:'):
             out.append(('%s %s' % (op, src), op + '/' + src.split(':')[0] + ':' + src.split(':')[-1][:5]))
@@ -520,9 +553,36 @@ def gen_C05(rng, tier):
         e = rng.choice([0, 1, 2, 3, 5, Q - 1, Q - 2, Q, 2**256, rng.randrange(2**rng.randrange(1, 300)),
                         2 * (Q - 1), (Q - 1) << 64, (Q - 1) ** 2, 3 * (Q - 1) + 1, 5 * (Q - 1) - 1, Q * (Q - 1), 2**254, 2**255 - 1, 2**512 - 1])
         out.append(('ff asm exp %d %d' % (x, e), 'exp' + ('/e=0' if e == 0 else '/e>=2^256' if e >= 2**256 else '')))
+    # the statement's special cases, always present: zero divisor (also as destination, also 0/0,
+    # also x and y one object), exponent 0 (also of 0), on both assembly configurations
+    nz0 = [v for v in vals if v != 0]
+    for be in ('asm', 'noadx'):
+        for al in (0, 1, 2):
+            out.append(('ff %s div %d %d 0' % (be, al, rng.choice(nz0)), 'div/by-zero/alias%d' % al))
+            out.append(('ff %s div %d 0 0' % (be, al), 'div/zero-by-zero'))
+        for al in (3, 4):
+            out.append(('ff %s div %d %d %d' % ((be, al) + (rng.choice(nz0),) * 2), 'div/x=y/alias%d' % al))
+            out.append(('ff %s div %d 0 0' % (be, al), 'div/zero-by-zero'))
+        out.append(('ff %s inverse 0 0' % be, 'inverse/zero'))
+        out.append(('ff %s inverse 1 0' % be, 'inverse/zero'))
+        for (x, e) in ((0, 0), (0, 1), (0, Q - 1), (0, 2**300), (ff_mont(1), 0), (rng.choice(nz0), 0), (ff_mont(Q - 1), Q - 1), (rng.choice(nz0), Q - 1)):
+            out.append(('ff %s exp %d %d' % (be, x, e), 'exp/special'))
+    for x in rng.sample(vals, min(len(vals), 12)):
+        out.append(('ff noadx halve %d' % x, 'noadx/halve'))
+        out.append(('ff noadx tomont %d' % x, 'noadx/tomont'))
+        out.append(('ff noadx inverse %d %d' % (rng.choice([0, 1]), x), 'noadx/inverse'))
+        out.append(('ff noadx div %d %d %d' % (rng.choice([0, 1, 2]), x, rng.choice(vals)), 'noadx/div'))
+        out.append(('ff noadx exp %d %d' % (x, rng.choice([2, 3, Q - 2, rng.randrange(2**256), 2**256 + 1])), 'noadx/exp'))
     for ln in (0, 1, 2, 3, 5, 9):
         l = [rng.choice(vals + [0]) for _ in range(ln)]
         out.append(('ff asm batchinv ' + lst(l), 'batchinv/len%d%s' % (ln, '/with-zero' if 0 in l else '')))
+        out.append(('ff noadx batchinv ' + lst(l), 'noadx/batchinv'))
+    xx = rng.choice(nz0)
+    xi = ff_mont(inv(ff_unmont(xx)))
+    out.append(('ff asm batchinv ' + lst([xx, xi]), 'batchinv/product-is-one'))
+    out.append(('ff asm batchinv ' + lst([xx, xx, xx]), 'batchinv/duplicates'))
+    out.append(('ff asm batchinv ' + lst([xx, 0, xx, xi, 0, xi]), 'batchinv/duplicates'))
+    out.append(('ff asm batchinv ' + lst([rng.choice(vals) for _ in range(64 if tier == 'quick' else 1000)]), 'batchinv/long'))
     out.append(('ff asm batchinv ' + lst([0, 0, 0]), 'batchinv/all-zero'))
     # zeros at every position class: first, last, middle, runs, alone
     nz = [v for v in vals if v != 0]
@@ -562,9 +622,30 @@ def gen_C09(rng, tier):
         out.append(('ffg exp %d %d' % (x, e), 'exp' + ('/e=0' if e == 0 else '')))
     for v in [0, 1, PG - 1, PG, PG + 1, 2**64 - 1, 2**64 - 2**32, 2**63] + [rng.randrange(PG, 2**64) for _ in range(20)] + [rng.randrange(2**64) for _ in range(20)]:
         out.append(('ffg setuint64 %d' % v, 'setuint64/' + ('>=p' if v >= PG else '<p')))
+    nzc = [v for v in cls if v != 0]
+    for al in (0, 1, 2):
+        out.append(('ffg div %d %d 0' % (al, rng.choice(nzc)), 'div/by-zero/alias%d' % al))
+        out.append(('ffg div %d 0 0' % al, 'div/zero-by-zero'))
+    for al in (3, 4):
+        out.append(('ffg div %d %d %d' % ((al,) + (rng.choice(nzc),) * 2), 'div/x=y/alias%d' % al))
+        out.append(('ffg div %d 0 0' % al, 'div/zero-by-zero'))
+    for (x, e) in ((0, 0), (0, 1), (0, PG - 1), (0, 2**100), (2**32 - 1, 0), (rng.choice(nzc), 0), (rng.choice(nzc), PG - 1)):
+        out.append(('ffg exp %d %d' % (x, e), 'exp/special'))
+    # Montgomery reduction at the exact carry boundary: products with x*y*R^-1 = 1 and x*y = R^2 - small
+    R64 = 2**64 % PG
+    for _ in range(4):
+        xr = rng.randrange(1, PG)
+        out.append(('ffg mul 0 %d %d' % (xr * R64 % PG, inv(xr, PG) * R64 % PG), 'mul/product-is-one'))
+        out.append(('ffg mul 0 %d %d' % (xr, inv(xr, PG)), 'mul/raw-product-is-one'))
+        out.append(('ffg mul 0 %d %d' % (xr, (2**32 - 2) * inv(xr, PG) % PG), 'mul/raw-product-2^32-2'))
+        out.append(('ffg mul 0 %d %d' % (xr, (PG - 1) * inv(xr, PG) % PG), 'mul/raw-product-minus-one'))
     for ln in (0, 1, 2, 3, 7):
         l = [rng.choice(cls) for _ in range(ln)]
         out.append(('ffg batchinv ' + lst(l), 'batchinv/len%d%s' % (ln, '/with-zero' if 0 in l else '')))
+    xg = rng.choice(nzc)
+    out.append(('ffg batchinv ' + lst([xg, inv(xg * inv(R64, PG) % PG, PG) * R64 % PG]), 'batchinv/product-is-one'))
+    out.append(('ffg batchinv ' + lst([xg, xg, 0, xg]), 'batchinv/duplicates'))
+    out.append(('ffg batchinv ' + lst([rng.choice(cls + [rng.randrange(PG)]) for _ in range(64 if tier == 'quick' else 1000)]), 'batchinv/long'))
     nzg = [v for v in cls if v != 0]
     for pat in ('0', 'x', '0x', 'x0', '0xx', 'x0x', 'xx0', '00x', 'x00', '0x0', '000', '0xxxx', 'xxxx0', 'x0x0x', '00xx0'):
         out.append(('ffg batchinv ' + lst([0 if c == '0' else rng.choice(nzg) for c in pat]), 'batchinv/zero-pattern'))
@@ -606,6 +687,26 @@ def gen_C11(rng, tier):
             out.append(('%s equal %d %d' % (pre, r, r), 'equal/same'))
             out.append(('%s cmp %d %d' % (pre, r, r2), 'cmp'))
             out.append(('%s cmp %d %d' % (pre, r, r), 'cmp/same'))
+        # Equal / Cmp / IsZero must look at EVERY limb: pairs that differ in exactly one limb,
+        # values with exactly one non-zero limb, regular values one apart at each limb weight
+        nl = 4 if p == Q else 1
+        for _ in range(3):
+            r = rng.randrange(p)
+            for k in range(nl):
+                r2 = r ^ (1 << (64 * k + rng.randrange(64)))
+                if r2 < p:
+                    out.append(('%s equal %d %d' % (pre, r, r2), 'equal/one-limb-differs'))
+                    out.append(('%s equal %d %d' % (pre, r2, r), 'equal/one-limb-differs'))
+                v = rng.randrange(2**(64 * nl - 2)) % p
+                for d in (1, -1):
+                    w = (v + d * 2**(64 * k)) % p
+                    out.append(('%s cmp %d %d' % (pre, mont(v), mont(w)), 'cmp/differ-at-limb%d' % k))
+                    out.append(('%s cmp %d %d' % (pre, mont(w), mont(v)), 'cmp/differ-at-limb%d' % k))
+        for k in range(nl):
+            for raw in (1 << (64 * k), (2**64 - 1) << (64 * k) if k < 3 else 1 << 250):
+                if raw < p:
+                    out.append(('%s iszero %d' % (pre, raw), 'iszero/one-limb'))
+                    out.append(('%s equal %d 0' % (pre, raw), 'equal/one-limb-vs-zero'))
         for v in [0, 1, 2**32, 2**63, 2**64 - 1] + [rng.randrange(2**64) for _ in range(5)]:
             out.append(('%s setuint64 %d' % (pre, v), 'SetUint64'))
         # the rest of the exported surface of the element types (reads of the stored limbs)
